@@ -1,5 +1,6 @@
 import NodisVerif.Proofs.C20HFloat
 import NodisVerif.Proofs.C20RenameNX
+import NodisVerif.Proofs.C20ZStore
 /-
   C20: the state-changing calls of the embedded API as a type, the call information the driver
   hands to `Feed.emission`, argument side conditions, finding regions, and the main theorem over
@@ -46,6 +47,9 @@ inductive Call
   | sunionStore (dst : Bytes) (ks : List Bytes)
   -- floats
   | zincrBy (k m : Bytes) (d : F64) | hincrByFloat (k f : Bytes) (d : F64)
+  -- sorted-set stores: destination, operands, weights, aggregate
+  | zunionStore (dst : Bytes) (ks : List Bytes) (ws : List F64) (agg : Bytes)
+  | zinterStore (dst : Bytes) (ks : List Bytes) (ws : List F64) (agg : Bytes)
 
 namespace Call
 
@@ -119,6 +123,8 @@ def run : Call → MState → Int → Api.R
   | sunionStore dst ks, s, now => Api.sstore Api.sunion s now dst ks
   | zincrBy k m d, s, now => Api.zincrby s now k m d
   | hincrByFloat k f d, s, now => Api.hincrbyfloat s now k f d
+  | zunionStore dst ks ws agg, s, now => Api.zstore true s now dst ks ws agg
+  | zinterStore dst ks ws agg, s, now => Api.zstore false s now dst ks ws agg
 
 /-- the method name the driver passes to `Feed.emission` -/
 def method : Call → String
@@ -140,6 +146,7 @@ def method : Call → String
   | renameNX .. => "RenameNX" | smove .. => "SMove" | lpopRpush .. => "LPopRPush" | rpopLpush .. => "RPopLPush"
   | sdiffStore .. => "SDiffStore" | sinterStore .. => "SInterStore" | sunionStore .. => "SUnionStore"
   | zincrBy .. => "ZIncrBy" | hincrByFloat .. => "HIncrByFloat"
+  | zunionStore .. => "ZUnionStore" | zinterStore .. => "ZInterStore"
 
 /-- the key arguments of the call -/
 def keys : Call → List Bytes
@@ -161,14 +168,26 @@ def keys : Call → List Bytes
   | renameNX a b => [a, b] | smove src dst _ => [src, dst] | lpopRpush a b => [a, b] | rpopLpush a b => [a, b]
   | sdiffStore dst ks => dst :: ks | sinterStore dst ks => dst :: ks | sunionStore dst ks => dst :: ks
   | zincrBy k .. => [k] | hincrByFloat k .. => [k]
+  | zunionStore dst ks .. => dst :: ks | zinterStore dst ks .. => dst :: ks
 
 /-- the plain byte-string arguments in call order (`Feed.emission` needs them for SMOVE) -/
 def bs : Call → List Bytes
   | smove src dst m => [src, dst, m]
+  | zunionStore .. => [] | zinterStore .. => []
   | c => c.keys
 
-/-- what the driver hands to `Feed.emission` (the byte-string arguments matter for SMOVE only) -/
-def info (c : Call) : Feed.CallInfo := { method := c.method, bs := c.bs }
+/-- operands, weights and aggregate of the sorted-set stores (`Feed.emission` puts them into the record) -/
+def zkeys : Call → List Bytes
+  | zunionStore _ ks .. => ks | zinterStore _ ks .. => ks | _ => []
+def zweights : Call → List F64
+  | zunionStore _ _ ws _ => ws | zinterStore _ _ ws _ => ws | _ => []
+def zagg : Call → Bytes
+  | zunionStore _ _ _ agg => agg | zinterStore _ _ _ agg => agg | _ => []
+
+/-- what the driver hands to `Feed.emission` (the byte-string arguments matter for SMOVE only, operands /
+    weights / aggregate for the sorted-set stores only) -/
+def info (c : Call) : Feed.CallInfo :=
+  { method := c.method, bs := c.bs, keys := c.zkeys, weights := c.zweights, aggregate := c.zagg }
 
 /-- argument side conditions: what Go's types guarantee (int64 deadlines and increments, lengths
     below 2^63) and what the command handlers check (no NaN score) -/
@@ -207,6 +226,8 @@ def Region (K : Bytes → Option (Val × Int)) : Call → Prop
   | zremRangeByScore k a b mode => ZRemOnEmpty (fun z => DsZSet.zRemRangeByScore z a b (mode % 4).toNat) (K k)
   | zincrBy k m d => ZIncrByNaN (K k) m d
   | hincrByFloat k _ d => HIncrByFloatCreatesAndFails (K k) d
+  | zunionStore _ ks ws agg => ZStoreNaN K true ks ws agg
+  | zinterStore _ ks ws agg => ZStoreNaN K false ks ws agg
   | _ => False
 
 end Call
@@ -472,6 +493,12 @@ theorem call_main (c : Call) (hwf : c.WF) (hs : Same now p r) (hl : p.listeners 
     exact ⟨h.1, h.2.1⟩
   | hincrByFloat k f d =>
     have h := hincrbyfloat_main hs hl hfd (Call.hincrByFloat k f d).info rfl k f d hwf hreg
+    exact ⟨h.1, h.2.1⟩
+  | zunionStore dst ks ws agg =>
+    have h := zstore_main true hs hl hfd (Call.zunionStore dst ks ws agg).info (Or.inl rfl) dst ks ws agg rfl rfl rfl hreg
+    exact ⟨h.1, h.2.1⟩
+  | zinterStore dst ks ws agg =>
+    have h := zstore_main false hs hl hfd (Call.zinterStore dst ks ws agg).info (Or.inr rfl) dst ks ws agg rfl rfl rfl hreg
     exact ⟨h.1, h.2.1⟩
 
 end NodisVerif.Proofs.C20
